@@ -495,6 +495,9 @@ func opAdd(h *Hist) {
 	switch h.d.Draw("add-multi", 8) {
 	case 0, 1:
 		k = 2 + h.d.Draw("add-n", 2)
+		if h.big {
+			k = 2 + h.d.Draw("add-n-big", 12)
+		}
 	case 2:
 		k = 0 // Add() with no value: nothing changes, the receiver is returned
 		h.counters["probe:zero-argument-call"]++
@@ -2043,6 +2046,12 @@ func opClone(h *Hist) {
 	if len(src) > 1 {
 		h.counters["probe:clone-nested"]++
 	}
+	if d := depthOf(n, 0); d >= 3 {
+		h.counters["probe:clone-depth>=3"]++
+	}
+	if len(src) < len(occurrences(n)) {
+		h.counters["probe:clone-source-holds-a-container-twice"]++
+	}
 	// Equals both ways
 	var e1, e2 bool
 	pe, _ := h.call(func() {
@@ -2058,4 +2067,39 @@ func opClone(h *Hist) {
 	}
 	h.trace[len(h.trace)-1] += " -> " + r.Name
 	h.heapCheck()
+}
+
+func depthOf(n *Node, d int) int {
+	best := d + 1
+	for _, v := range n.Elems {
+		if v.isRef() {
+			if x := depthOf(v.N, d+1); x > best {
+				best = x
+			}
+		}
+	}
+	for _, v := range n.Fields {
+		if v.isRef() {
+			if x := depthOf(v.N, d+1); x > best {
+				best = x
+			}
+		}
+	}
+	return best
+}
+
+// occurrences lists the containers below n with multiplicity (n itself included).
+func occurrences(n *Node) []*Node {
+	out := []*Node{n}
+	for _, v := range n.Elems {
+		if v.isRef() {
+			out = append(out, occurrences(v.N)...)
+		}
+	}
+	for _, k := range n.keys() {
+		if v := n.Fields[k]; v.isRef() {
+			out = append(out, occurrences(v.N)...)
+		}
+	}
+	return out
 }
